@@ -66,7 +66,16 @@ def generate(outdir):
         path = os.path.join(outdir, 'Gen_%s.v' % mod.name)
         if not (os.path.exists(path) and open(path).read() == txt):
             open(path, 'w').write(txt)
+    from . import tables
+    global _ntables
+    txt, _ntables = tables.generate(load)
+    path = os.path.join(outdir, 'Gen_tables.v')
+    if not (os.path.exists(path) and open(path).read() == txt):
+        open(path, 'w').write(txt)
     return allf
+
+
+_ntables = 0
 
 
 def count_functions():
@@ -74,7 +83,7 @@ def count_functions():
 
 
 def count_tables():
-    return 0
+    return _ntables
 
 
 if __name__ == '__main__':
